@@ -36,6 +36,33 @@ func ToVariable(ent types.EntityUID) (types.String, bool) {
 	return "", false
 }
 
+// containsVariable reports whether v is, or has nested anywhere inside of it, a variable.
+// A record or set with an unknown inside cannot be compared or searched as a whole yet.
+func containsVariable(v types.Value) bool { return containsEntityOfType(v, variableEntityType) }
+
+// containsIgnore is the same for ignored values.
+func containsIgnore(v types.Value) bool { return containsEntityOfType(v, ignoreEntityType) }
+
+func containsEntityOfType(v types.Value, typ types.EntityType) bool {
+	switch t := v.(type) {
+	case types.EntityUID:
+		return t.Type == typ
+	case types.Record:
+		for vv := range t.Values() {
+			if containsEntityOfType(vv, typ) {
+				return true
+			}
+		}
+	case types.Set:
+		for vv := range t.All() {
+			if containsEntityOfType(vv, typ) {
+				return true
+			}
+		}
+	}
+	return false
+}
+
 func IsIgnore(v types.Value) bool {
 	if ent, ok := v.(types.EntityUID); ok && ent.Type == ignoreEntityType {
 		return true
@@ -163,6 +190,7 @@ func tryPartial(env Env, nodes []ast.IsNode,
 ) (ast.IsNode, error) {
 	var values []types.Value
 	ok := true
+	orig := slices.Clone(nodes)
 	for i, n := range nodes {
 		n, err := partial(env, n)
 		if errors.Is(err, errVariable) {
@@ -188,7 +216,9 @@ func tryPartial(env Env, nodes []ast.IsNode,
 			return nil, err
 		}
 		if IsVariable(v) {
-			return mkNode(nodes), errVariable
+			// the operands in nodes are values frozen from the current environment; the
+			// residual must keep the original operands so that it sees the completed one
+			return mkNode(orig), errVariable
 		} else if IsIgnore(v) {
 			return nil, errIgnore
 		}
@@ -199,7 +229,16 @@ func tryPartial(env Env, nodes []ast.IsNode,
 
 func tryPartialBinary(env Env, v ast.BinaryNode, mkEval func(a, b Evaler) Evaler, wrap func(b ast.BinaryNode) ast.IsNode) (ast.IsNode, error) {
 	return tryPartial(env, []ast.IsNode{v.Left, v.Right},
-		func(values []types.Value) Evaler { return mkEval(newLiteralEval(values[0]), newLiteralEval(values[1])) },
+		func(values []types.Value) Evaler {
+			if containsVariable(values[0]) || containsVariable(values[1]) {
+				// e.g. `context == {..}` or `context.s.contains(1)` with an unknown nested inside
+				// of the operand: not decidable yet, keep the node
+				return newLiteralEval(Variable(""))
+			} else if containsIgnore(values[0]) || containsIgnore(values[1]) {
+				return newLiteralEval(Ignore())
+			}
+			return mkEval(newLiteralEval(values[0]), newLiteralEval(values[1]))
+		},
 		func(nodes []ast.IsNode) ast.IsNode { return wrap(ast.BinaryNode{Left: nodes[0], Right: nodes[1]}) },
 	)
 }
@@ -279,6 +318,11 @@ func partial(env Env, n ast.IsNode) (ast.IsNode, error) {
 		return tryPartial(env,
 			[]ast.IsNode{v.Left, v.Entity},
 			func(values []types.Value) Evaler {
+				if containsVariable(values[1]) {
+					return newLiteralEval(Variable(""))
+				} else if containsIgnore(values[1]) {
+					return newLiteralEval(Ignore())
+				}
 				return newIsInEval(newLiteralEval(values[0]), v.EntityType, newLiteralEval(values[1]))
 			},
 			func(nodes []ast.IsNode) ast.IsNode {
